@@ -111,7 +111,7 @@ func (c *FnCtx) panicIf(st *State, cond, what string, n ast.Node) {
 			vals = append(vals, c.zero(r.Type()))
 		}
 	}
-	top.returns = append(top.returns, &retRec{st: pst, vals: vals, panicking: true, what: what, node: n})
+	top.returns = append(top.returns, &retRec{st: pst, vals: vals, panicking: true, what: what, node: n, afterCut: c.cutDone})
 	st.become(ok)
 }
 
